@@ -937,6 +937,30 @@ func r057(c *Ctx, r *R) {
 		return
 	}
 	sort.Strings(listed)
+	// a failed listing is an error, not an empty listing: with an empty
+	// listing every allocated item looks unexpectedly unpinned and the
+	// recover round re-pins the whole pinset
+	for _, s := range c.RPC {
+		if s.Fn != f || len(s.Targets) != 1 || s.Targets[0].Method != "PinLs" {
+			continue
+		}
+		call, _ := s.Call.(*ssa.Call)
+		if call == nil {
+			continue
+		}
+		okErr := true
+		for _, lf := range returnLeaves(f, f.Signature.Results().Len()-1) {
+			if !isNilConst(lf.Val) {
+				continue
+			}
+			if !mustPass(lf.Block, func(g Guard) bool {
+				return gNil(g, false, func(v ssa.Value) bool { cc, _ := originCall(v); return cc == call })
+			}) {
+				okErr = false
+			}
+		}
+		r.Check(okErr, "stateless.ipfsStatusAll:listing-error-returned", s.Call.Pos(), "no listing is returned when the PinLs request failed", "ipfsStatusAll answers with a (possibly empty) listing and no error although the PinLs request failed: StatusAll then reports every item allocated here as unexpectedly_unpinned while Status says pinned, and RecoverAll re-requests pins that were never missing")
+	}
 	// a listing wider than the recursive pins is only usable if the entries
 	// are compared with the mode the pinset records: localStatus decides
 	// "pinned here" by the mere presence of the CID in the listing, which
